@@ -75,8 +75,9 @@ structure Oracle where
   yaml : String → Option Val
   /-- `load_value(s, simple_types=True)` as used by the `Any` branch, `none` = loader exception -/
   loadAny : String → Option Val
-  /-- `repr(float(i))` for `|i| > 2^53` (where the conversion rounds) -/
-  bigFlt : Int → String
+  /-- `repr(float(i))` for `|i| > 2^53` (where the conversion rounds); `none` = `OverflowError` (the int is beyond
+      the float range; the code turns it into a `ValueError`, commit 31f099f) -/
+  bigFlt : Int → Option String
   /-- `int(s)` for a dictionary key, `none` = ValueError -/
   intOf : String → Option Int
 
@@ -132,8 +133,8 @@ def fltAsInt (r : String) : Option Int :=
   | _, _ => .none
 
 /-- `repr(float(i))`: the conversion is exact for `|i| ≤ 2^53` (< 10^16, so `repr` is positional), the oracle above -/
-def toFlt (O : Oracle) (i : Int) : String :=
-  if i.natAbs ≤ 2 ^ 53 then toString i ++ ".0" else O.bigFlt i
+def toFlt (O : Oracle) (i : Int) : Option String :=
+  if i.natAbs ≤ 2 ^ 53 then some (toString i ++ ".0") else O.bigFlt i
 
 /-! ### Python `==` and hashability -/
 
